@@ -165,6 +165,19 @@ def main(tier):
             ok, detail = minmax_fold(ev, ctor, a_["term"]) if a_ else (False, "no arm (%s)" % err_)
             run.ob(ok, "agg|%s|%s" % (ev, ctor), "C15 %s selects the same argument in eval_i64, eval_f64 and eval_number: the %s of the arguments as numbers" % (ctor.lower(), "minimum" if ctor == "Min" else "maximum"),
                    where(models[ev], "::ast::eval") + " arm " + ctor, detail, sample={"evaluator": ev, "aggregate": ctor, "schema": detail[:100]} if ev == "eval_number" else None)
+    # 3c. avg / med: each of the three is the mean / the median of its own value type (C11's schemas, reused) -- then they agree on
+    # the shared grammar wherever eval_i64 is defined
+    from .c11 import avg_fold, med_fold
+    for ev in ("eval_i64", "eval_f64", "eval_number"):
+        if ev not in models:
+            continue
+        arms_ = models[ev].tb.eval_arms()
+        for ctor, fn_ in (("Avg", avg_fold), ("Med", med_fold)):
+            r_, err_ = chain.function_chain(models[ev], SURFACE[ctor])
+            a_ = arms_.get(r_[0]) if r_ else None
+            ok, detail = fn_(ev, a_["term"]) if a_ else (False, "no arm (%s)" % err_)
+            run.ob(ok, "agg|%s|%s" % (ev, ctor), "C15 %s is computed the same way in eval_i64, eval_f64 and eval_number: the %s of the arguments as numbers" % (SURFACE[ctor], "mean" if ctor == "Avg" else "median (sorted middle / mean of the two middle values)"),
+                   where(models[ev], "::ast::eval") + " arm " + ctor, detail)
     # 4. complex / decimal <-> f64: same-named routing
     for ev in ("eval_complex", "eval_decimal"):
         if ev not in models or "eval_f64" not in models:
